@@ -98,6 +98,7 @@ def _plan(prop, T):
                 key_closure("dbg", mon, T),
                 key_random("dbg", mon, "tree", 6400, T),
                 key_random("rel", mon, "tree", 9600, T),
+                dict(flavour="rel", suite="key-random", args=dict(mon="pred,empty", coll="tree", profile="marathon", noexport=1), shards=16, budget=16, timeout=3400 if T else 150, seed_offset=61),
                 dict(flavour="dbg", suite="sweep-line", args=dict(mon="pred,empty,phys", coll="tree"), shards=8, budget=160 * (6 if T else 1)),
                 dict(flavour="rel", suite="big", args=dict(max_n=4000000 if T else 400000, probes="kquery"), shards=16, timeout=3400 if T else 150),
                 miri("key-random", 128, 8, T, mon="pred,empty", coll="tree", **MIRI_KEY),
@@ -116,6 +117,7 @@ def _plan(prop, T):
                 key_random("dbg", mon, "tree", 6400, T),
                 key_random("rel", mon, "tree", 9600, T),
                 key_random("dbg", mon, "tree", 1600, T, profile="lookup-sweeps", seed_offset=77),
+                dict(flavour="rel", suite="key-random", args=dict(mon="get", coll="tree", profile="marathon", noexport=1), shards=16, budget=16, timeout=3400 if T else 150, seed_offset=61),
                 dict(flavour="rel", suite="big", args=dict(max_n=4000000 if T else 400000, probes="kquery"), shards=16, timeout=3400 if T else 150),
                 miri("key-random", 128, 8, T, mon="get", coll="tree", **MIRI_KEY),
             ],
@@ -150,6 +152,8 @@ def _plan(prop, T):
                 ord_random("dbg", "structure,removal_stats", "maptree+settree+maptree-int+settree-int", 3200, T),
                 key_random("dbg", "structure", "tree", 3200, T),
                 ord_random("rel", "structure,removal_stats", "maptree+settree", 3200, T),
+                dict(flavour="rel", suite="key-random", args=dict(mon="structure", coll="tree", profile="marathon", noexport=1), shards=16, budget=16, timeout=3400 if T else 150, seed_offset=61),
+                dict(flavour="rel", suite="ord-random", args=dict(mon="structure", coll="maptree+settree", profile="marathon"), shards=16, budget=16 * 1, timeout=3400 if T else 150, seed_offset=62),
                 dict(flavour="rel", suite="big", args=dict(max_n=4000000 if T else 800000), shards=16, timeout=3400 if T else 150),
             ],
             rule="evaluation = one hooked arena snapshot validated after a completed public call (links, strict key order, no red-red edge, equal black count, sentinel unlinked, height <= 2*log2(n+1)+1); distinct non-trivial = closed canonical shapes with >= 2 entries + distinct pre-removal configurations (children, colours of node/sibling/nephews/parent, side) + distinct (n, height) pairs of large trees",
@@ -191,6 +195,7 @@ def _plan(prop, T):
                 ord_closure("dbg", "lookup", T, MAP_SETS_QUICK if is_map else SET_SETS_QUICK, MAP_SETS_THOROUGH if is_map else SET_SETS_THOROUGH),
                 ord_random("dbg", "lookup", colls, 4800, T),
                 ord_random("rel", "lookup", colls, 4800, T),
+                dict(flavour="rel", suite="ord-random", args=dict(mon="lookup", coll=tree, profile="marathon"), shards=16, budget=16, timeout=3400 if T else 150, seed_offset=62),
                 ord_random("asan", "lookup", colls, 1600, T),
                 dict(flavour="rel", suite="big", args=dict(max_n=4000000 if T else 400000, probes="lookup", only_coll=tree), shards=16, timeout=3400 if T else 150),
                 miri("ord-random", 64, 8, T, mon="lookup", coll=colls, **MIRI_ORD),
@@ -206,6 +211,7 @@ def _plan(prop, T):
                 ord_closure("dbg", "handle", T),
                 ord_random("dbg", "handle", "maptree+settree+maptree-int+settree-int", 4800, T),
                 ord_random("rel", "handle", "maptree+settree", 4800, T),
+                dict(flavour="rel", suite="ord-random", args=dict(mon="handle", coll="maptree+settree", profile="marathon"), shards=16, budget=16 * 1, timeout=3400 if T else 150, seed_offset=62),
                 ord_random("asan", "handle", "maptree+settree", 1600, T),
                 dict(flavour="rel", suite="big", args=dict(max_n=4000000 if T else 400000, probes="handle"), shards=16, timeout=3400 if T else 150),
                 miri("ord-random", 64, 8, T, mon="handle", coll="maptree+settree", **MIRI_ORD),
@@ -222,6 +228,7 @@ def _plan(prop, T):
                 ord_random("dbg", "steps", "settree+settree-int", 4800, T),
                 ord_random("asan", "steps", "settree+settree-int", 1600, T),
                 ord_random("rel", "steps", "settree", 3200, T),
+                dict(flavour="rel", suite="ord-random", args=dict(mon="steps", coll="settree", profile="marathon"), shards=16, budget=16 * 1, timeout=3400 if T else 150, seed_offset=62),
                 dict(flavour="rel", suite="big", args=dict(max_n=4000000 if T else 400000, probes="steps"), shards=16, timeout=3400 if T else 150),
                 miri("ord-random", 64, 8, T, mon="steps", coll="settree+settree-int", **MIRI_ORD),
             ],
@@ -247,6 +254,8 @@ def _plan(prop, T):
         jobs += [
             dict(flavour="rel", suite="export-size", args=dict(max_n=300000, nojudge=1), shards=8, mem_limit=8 * GB),
             dict(flavour="rel", suite="big", args=dict(max_n=400000, nojudge=1), shards=8, timeout=3400 if T else 150),
+            dict(flavour="rel", suite="key-random", args=dict(mon="none", coll="both", profile="marathon", nojudge=1), shards=8, budget=8, timeout=3400 if T else 150),
+            dict(flavour="rel", suite="ord-random", args=dict(mon="none", coll="maptree+settree+maplist+setlist", profile="marathon", nojudge=1), shards=8, budget=8, timeout=3400 if T else 150),
             dict(flavour="dbg", suite="seg-bulk", args=dict(mon="none", max_n=300000, nojudge=1), shards=8),
             dict(flavour="asan", suite="seg-bulk", args=dict(mon="none", max_n=140000, nojudge=1), shards=8),
             dict(flavour="rel", suite="big", args=dict(max_n=400000, probes="clear", nojudge=1), shards=8, timeout=3400 if T else 150),
@@ -279,6 +288,8 @@ def _plan(prop, T):
                 ord_random("rel", "slots", "maptree+settree+maptree-int", 6400, T, profile="large-bounded-population,medium,clear-and-reuse", seed_offset=5),
                 key_random("dbg", "slots", "tree", 3200, T),
                 key_random("rel", "slots", "tree", 4800, T, profile="large,medium,insert-heavy-long-lived,clear-heavy", seed_offset=6),
+                dict(flavour="rel", suite="key-random", args=dict(mon="slots", coll="tree", profile="marathon", noexport=1), shards=16, budget=16, timeout=3400 if T else 150, seed_offset=61),
+                dict(flavour="rel", suite="ord-random", args=dict(mon="slots", coll="maptree+settree", profile="marathon"), shards=16, budget=16 * 1, timeout=3400 if T else 150, seed_offset=62),
                 dict(flavour="rel", suite="big", args=dict(max_n=1000000 if T else 100000), shards=16, timeout=3400 if T else 150),
                 dict(flavour="rel", suite="big", args=dict(max_n=4000000 if T else 400000, probes="clear"), shards=16, timeout=3400 if T else 150),
             ],
@@ -310,6 +321,8 @@ def _plan(prop, T):
                 key_closure("dbg", "pred,get,export,empty", T, coll="list"),
                 key_random("dbg", "pred,get,export,empty", "list", 6400, T),
                 key_random("rel", "pred,get,export,empty", "list", 9600, T),
+                dict(flavour="rel", suite="key-random", args=dict(mon="pred,get,export,empty", coll="list", profile="marathon"), shards=16, budget=16, timeout=3400 if T else 150, seed_offset=61),
+                dict(flavour="rel", suite="ord-random", args=dict(mon="lookup,handle,steps", coll="maplist+setlist", profile="marathon"), shards=16, budget=16 * 1, timeout=3400 if T else 150, seed_offset=62),
                 key_random("dbg", "pred,get,export,empty", "list", 3200, T, profile="stall-clock,clear-heavy,tiny-dense", seed_offset=11),
                 ord_closure("dbg", "lookup,handle,steps", T, LIST_SETS_QUICK, LIST_SETS_THOROUGH),
                 ord_random("dbg", "lookup,handle,steps", "maplist+setlist", 6400, T),
@@ -374,6 +387,7 @@ def _plan(prop, T):
                 ord_closure("dbg", "held", T, held_depth=3 if T else 2),
                 ord_random("dbg", "held", "maptree+settree+maptree-int+settree-int", 4800, T, profile="handles-held-across-inserts,small-mixed,medium,clear-and-reuse"),
                 ord_random("rel", "held", "maptree+settree", 4800, T, profile="handles-held-across-inserts,medium", seed_offset=3),
+                dict(flavour="rel", suite="ord-random", args=dict(mon="held", coll="maptree+settree", profile="marathon"), shards=16, budget=16 * 1, timeout=3400 if T else 150, seed_offset=62),
                 dict(flavour="rel", suite="big", args=dict(max_n=4000000 if T else 1600000, probes="held"), shards=16, timeout=3400 if T else 150),
                 miri("ord-random", 64, 8, T, mon="held", coll="maptree+settree", profile="handles-held-across-inserts,small-mixed", maxlen=40),
             ],
@@ -419,6 +433,7 @@ def _plan(prop, T):
                 key_closure("dbg", mon, T, coll="list", seed_offset=41),
                 key_random("dbg", mon, "both", 6400, T),
                 key_random("rel", mon, "both", 6400, T),
+                dict(flavour="rel", suite="key-random", args=dict(mon="cblive", coll="both", profile="marathon", noexport=1), shards=16, budget=16, timeout=3400 if T else 150, seed_offset=61),
                 dict(flavour="dbg", suite="sweep-line", args=dict(mon="cblive", coll="both"), shards=8, budget=240 * (6 if T else 1)),
                 miri("key-random", 64, 4, T, mon="cblive", coll="both", **MIRI_KEY),
             ],
